@@ -1,0 +1,24 @@
+//go:build verif
+
+package utils
+
+// Contracts for the verification machinery in /verif (comment-only; see /verif/DESIGN.md).
+
+//@ property C07 C08 C03
+//@ func Assert
+//@   panics_iff err != nil
+//@   ensures_panic same_error: implies(len(msg) <= 0, panicval() == err)
+//@ func AssertIf
+//@   panics_iff exp
+//@ func AssertLength
+//@   panics_iff err != nil
+//@   ensures result == n
+//@   ensures_panic same_error: panicval() == err
+//@ func AssertLong
+//@   panics_iff err != nil
+//@   ensures result == n
+//@   ensures_panic same_error: panicval() == err
+//@ func AssertBytes
+//@   panics_iff err != nil
+//@   ensures sameslice(result, b)
+//@   ensures_panic same_error: panicval() == err
